@@ -210,3 +210,145 @@ Proof.
     apply S1 in Hk. apply in_map_iff in Hk as ([k0 v2] & E0 & H2). cbn in E0. subst k0.
     exists v2. split; [apply lookup_nodup; assumption|]. eapply HV; eassumption.
 Qed.
+
+(* ---- veqb versus Python equality and well-formedness ---- *)
+Lemma nodup_atoms_char l :
+  nodup_atoms l = true <-> NoDup l /\ forall a b, In a l -> In b l -> py_eq a b = true -> a = b.
+Proof.
+  induction l as [|x l IH]; cbn.
+  - split; [intros _; split; [constructor|intros a b []]|reflexivity].
+  - rewrite andb_true_iff, negb_true_iff, IH. split.
+    + intros [Nx [ND PW]]. assert (Nin : ~ In x l).
+      { intros H. assert (mem_atom x l = true) by (apply mem_atom_In; exists x; split; [exact H|apply py_eq_refl]). congruence. }
+      split; [constructor; assumption|]. intros a b Ha Hb E. destruct Ha as [Ea|Ha], Hb as [Eb|Hb].
+      * congruence.
+      * subst a. exfalso. assert (mem_atom x l = true) by (apply mem_atom_In; exists b; split; assumption). congruence.
+      * subst b. exfalso. rewrite py_eq_sym in E. assert (mem_atom x l = true) by (apply mem_atom_In; exists a; split; assumption). congruence.
+      * apply PW; assumption.
+    + intros [ND PW]. inversion ND as [|? ? Nx ND']; subst. split; [|split; [exact ND'|intros a b Ha Hb; apply PW; right; assumption]].
+      destruct (mem_atom x l) eqn:M; [|reflexivity]. apply mem_atom_In in M as (b & Hb & E).
+      assert (x = b) by (apply PW; [left; reflexivity|right; exact Hb|exact E]). subst b. contradiction.
+Qed.
+
+Lemma nodup_atoms_perm l l' : Permutation l l' -> nodup_atoms l = true -> nodup_atoms l' = true.
+Proof.
+  intros P H. apply nodup_atoms_char in H as [ND PW]. apply nodup_atoms_char. split.
+  - eapply Permutation_NoDup; eassumption.
+  - intros a b Ha Hb. apply PW; eapply Permutation_in; try (apply Permutation_sym; exact P); assumption.
+Qed.
+
+Lemma all2_Forall2 {A} (f : A -> A -> bool) xs ys : all2 f xs ys = true <-> Forall2 (fun x y => f x y = true) xs ys.
+Proof.
+  revert ys; induction xs as [|x xs IH]; intros [|y ys]; cbn; split; intros H; try discriminate; try constructor; try (inversion H; fail).
+  - apply andb_true_iff in H as [H1 H2]. exact H1.
+  - apply andb_true_iff in H as [H1 H2]. apply IH. exact H2.
+  - inversion H; subst. apply andb_true_iff. split; [assumption|apply IH; assumption].
+Qed.
+
+Lemma lookup_In {B} k (l : list (atom * B)) v : lookup k l = Some v -> In (k, v) l.
+Proof.
+  unfold lookup. destruct (find _ l) as [[k' v']|] eqn:F; [|discriminate]. intros E. inversion E; subst.
+  apply find_some in F as [Hin Ek]. cbn in Ek. apply atom_eqb_eq in Ek. subst. exact Hin.
+Qed.
+
+Lemma dict_veq_elim ys xs : dict_veq ys xs = true -> forall k v, In (k, v) xs -> exists v', lookup k ys = Some v' /\ veqb v v' = true.
+Proof.
+  induction xs as [|[k0 v0] xs IH]; cbn; intros H k v Hin; [destruct Hin|].
+  apply andb_true_iff in H as [H1 H2]. destruct Hin as [E|Hin]; [inversion E; subst|apply IH; assumption].
+  destruct (lookup k ys) as [v'|]; [exists v'; auto|discriminate].
+Qed.
+
+(* the key lists of two veqb dicts are permutations of each other *)
+Lemma veqb_dict_keys xs ys : veqb (VDict xs) (VDict ys) = true -> NoDup (map fst ys) -> Permutation (map fst ys) (map fst xs).
+Proof.
+  rewrite veqb_dict. intros H ND. apply andb_true_iff in H as [H H3]. apply andb_true_iff in H as [H1 H2]. apply Nat.eqb_eq in H1.
+  apply NoDup_Permutation_bis; [exact ND|rewrite !map_length; lia|].
+  intros k Hk. eapply forallb_forall in H2; [|exact Hk]. apply has_atom_In. exact H2.
+Qed.
+
+Lemma veqb_facts : forall a b, veqb a b = true -> wf b = true ->
+  wf a = true /\ py_eqv a b = true /\ py_eqv b a = true.
+Proof.
+  induction a as [x|xs IH|xs IH|kvs IH|xs|xs] using value_ind'; intros b V W; destruct b as [y|ys|ys|kvs2|ys|ys]; try (cbn in V; discriminate V).
+  - cbn in V. apply atom_eqb_eq in V. subst. cbn. rewrite py_eq_refl. auto.
+  - rewrite veqb_list in V. apply all2_Forall2 in V. cbn [wf] in W |- *.
+    assert (Q : forallb wf xs = true /\ py_eqv (VList xs) (VList ys) = true /\ py_eqv (VList ys) (VList xs) = true).
+    { revert IH W. induction V as [|x y xs ys Hxy V IHV]; intros IH W; [cbn; auto|].
+      apply Forall_cons_iff in IH as [Hx IH]. cbn in W. apply andb_true_iff in W as [Wy W].
+      destruct (Hx y Hxy Wy) as (A1 & A2 & A3). destruct (IHV IH W) as (B1 & B2 & B3).
+      cbn. cbn in B2, B3. rewrite A1, A2, A3, B1, B2, B3. auto. }
+    exact Q.
+  - rewrite veqb_tuple in V. apply all2_Forall2 in V. cbn [wf] in W |- *.
+    assert (Q : forallb wf xs = true /\ py_eqv (VTuple xs) (VTuple ys) = true /\ py_eqv (VTuple ys) (VTuple xs) = true).
+    { revert IH W. induction V as [|x y xs ys Hxy V IHV]; intros IH W; [cbn; auto|].
+      apply Forall_cons_iff in IH as [Hx IH]. cbn in W. apply andb_true_iff in W as [Wy W].
+      destruct (Hx y Hxy Wy) as (A1 & A2 & A3). destruct (IHV IH W) as (B1 & B2 & B3).
+      cbn. cbn in B2, B3. rewrite A1, A2, A3, B1, B2, B3. auto. }
+    exact Q.
+  - pose proof V as V0. rewrite veqb_dict in V. apply andb_true_iff in V as [V V3]. apply andb_true_iff in V as [V1 V2]. apply Nat.eqb_eq in V1.
+    cbn [wf] in W. apply andb_true_iff in W as [N2 W2].
+    pose proof (veqb_dict_keys kvs kvs2 V0 (nodup_NoDup' _ N2)) as PK.
+    assert (N1 : nodup_atoms (map fst kvs) = true) by (eapply nodup_atoms_perm; eassumption).
+    assert (EL : forall k v, In (k, v) kvs -> exists v', In (k, v') kvs2 /\ veqb v v' = true).
+    { intros k v Hin. destruct (dict_veq_elim kvs2 kvs V3 k v Hin) as (v' & L & E). exists v'. split; [apply lookup_In; exact L|exact E]. }
+    assert (CH : forall k v v', In (k, v) kvs -> In (k, v') kvs2 -> wf v = true /\ py_eqv v v' = true /\ py_eqv v' v = true).
+    { intros k v v' H1 H2. destruct (EL k v H1) as (v'' & H2' & E).
+      assert (v'' = v'). { pose proof (assoc_nodup kvs2 k v'' k N2 H2' (py_eq_refl k)) as A1. pose proof (assoc_nodup kvs2 k v' k N2 H2 (py_eq_refl k)) as A2. congruence. }
+      subst v''. eapply Forall_forall in IH; [|exact H1]. apply (IH v' E). eapply forallb_forall in W2; [|exact H2]. exact W2. }
+    split; [|split].
+    + cbn [wf]. rewrite N1. cbn. apply forallb_forall. intros [k v] Hin. cbn. destruct (EL k v Hin) as (v' & H2 & _). apply (CH k v v' Hin H2).
+    + rewrite py_eqv_dict. apply andb_true_iff. split; [apply Nat.eqb_eq; exact V1|].
+      assert (G : forall l, (forall kv, In kv l -> In kv kvs) -> dict_go kvs2 l = true).
+      { induction l as [|[k v] l IHl]; intros Sub; [reflexivity|]. cbn. destruct (EL k v (Sub _ (or_introl eq_refl))) as (v' & H2 & _).
+        rewrite (assoc_nodup kvs2 k v' k N2 H2 (py_eq_refl k)). destruct (CH k v v' (Sub _ (or_introl eq_refl)) H2) as (_ & A & _). rewrite A. cbn.
+        apply IHl. intros kv Hkv. apply Sub. right. exact Hkv. }
+      apply G. intros kv H0. exact H0.
+    + rewrite py_eqv_dict. apply andb_true_iff. split; [apply Nat.eqb_eq; lia|].
+      assert (G : forall l, (forall kv, In kv l -> In kv kvs2) -> dict_go kvs l = true).
+      { induction l as [|[k v'] l IHl]; intros Sub; [reflexivity|]. cbn.
+        assert (Hk : In k (map fst kvs)).
+        { eapply Permutation_in; [exact PK|]. apply in_map_iff. exists (k, v'). split; [reflexivity|apply Sub; left; reflexivity]. }
+        apply in_map_iff in Hk as ([k0 v] & E0 & Hin). cbn in E0. subst k0.
+        rewrite (assoc_nodup kvs k v k N1 Hin (py_eq_refl k)). destruct (CH k v v' Hin (Sub _ (or_introl eq_refl))) as (_ & _ & A). rewrite A. cbn.
+        apply IHl. intros kv Hkv. apply Sub. right. exact Hkv. }
+      apply G. intros kv H0. exact H0.
+  - cbn in V. apply andb_true_iff in V as [V V3]. apply andb_true_iff in V as [V1 V2]. apply Nat.eqb_eq in V1. cbn [wf] in W |- *.
+    assert (PK : Permutation ys xs).
+    { apply NoDup_Permutation_bis; [apply nodup_NoDup'; exact W|lia|]. intros k Hk. eapply forallb_forall in V3; [|exact Hk]. apply has_atom_In. exact V3. }
+    split; [eapply nodup_atoms_perm; eassumption|]. cbn. rewrite V1, Nat.eqb_refl. cbn. split.
+    + apply forallb_forall. intros x Hx. apply mem_atom_In. exists x. split; [eapply Permutation_in; [apply Permutation_sym; exact PK|exact Hx]|apply py_eq_refl].
+    + apply forallb_forall. intros y Hy. apply mem_atom_In. exists y. split; [eapply Permutation_in; [exact PK|exact Hy]|apply py_eq_refl].
+  - cbn in V. apply andb_true_iff in V as [V V3]. apply andb_true_iff in V as [V1 V2]. apply Nat.eqb_eq in V1. cbn [wf] in W |- *.
+    assert (PK : Permutation ys xs).
+    { apply NoDup_Permutation_bis; [apply nodup_NoDup'; exact W|lia|]. intros k Hk. eapply forallb_forall in V3; [|exact Hk]. apply has_atom_In. exact V3. }
+    split; [eapply nodup_atoms_perm; eassumption|]. cbn. rewrite V1, Nat.eqb_refl. cbn. split.
+    + apply forallb_forall. intros x Hx. apply mem_atom_In. exists x. split; [eapply Permutation_in; [apply Permutation_sym; exact PK|exact Hx]|apply py_eq_refl].
+    + apply forallb_forall. intros y Hy. apply mem_atom_In. exists y. split; [eapply Permutation_in; [exact PK|exact Hy]|apply py_eq_refl].
+Qed.
+
+(* values without dicts and sets: typed equality up to order is equality *)
+Fixpoint ordfree (v : value) : bool :=
+  match v with
+  | VAtom _ => true
+  | VList xs | VTuple xs => forallb ordfree xs
+  | _ => false
+  end.
+
+Lemma all2_eq (f : value -> value -> bool) xs : forall ys,
+  Forall (fun x => forall y, f x y = true -> ordfree y = true -> x = y) xs ->
+  all2 f xs ys = true -> forallb ordfree ys = true -> xs = ys.
+Proof.
+  induction xs as [|x xs IH]; intros [|y ys] HF H O; cbn in H; try discriminate; [reflexivity|].
+  apply Forall_cons_iff in HF as [Hx HF]. apply andb_true_iff in H as [H1 H2]. cbn in O. apply andb_true_iff in O as [O1 O2].
+  f_equal; [apply Hx; assumption|apply IH; assumption].
+Qed.
+
+Lemma veqb_ordfree : forall a b, veqb a b = true -> ordfree b = true -> a = b.
+Proof.
+  induction a as [x|xs IH|xs IH|kvs IH|xs|xs] using value_ind'; intros b H O; destruct b; cbn in O; try discriminate O;
+    try (cbn in H; discriminate H).
+  - cbn in H. apply atom_eqb_eq in H. congruence.
+  - rewrite veqb_list in H. f_equal. eapply all2_eq; eassumption.
+  - rewrite veqb_tuple in H. f_equal. eapply all2_eq; eassumption.
+Qed.
+
